@@ -115,12 +115,23 @@ def register_cells(ctx: Ctx, rule: str) -> None:
             what = "get_workers(node) = keys of the node's cell dictionary (all nodes if none given)"
         else:
             w_ = f.params()[2]
-            aug = [s for s in ast.walk(f.node) if isinstance(s, ast.AugAssign)]
-            ok = ok and len(loops) == 2 and ast.unparse(loops[0].iter) == "node_keys" and ast.unparse(loops[1].iter) == "worker_keys" \
-                and defs.get("worker_keys") == [f"[{w_}.id] if {w_} else self._registry.get({loops[0].target.id}, {{}}).keys()"] \
-                and len(aug) == 1 and isinstance(aug[0].op, ast.Add) \
-                and ast.unparse(aug[0].value) == f"self._registry.get({loops[0].target.id}, {{}}).get({loops[1].target.id}, 0)" \
-                and defs.get("counter") == ["0"] and len(rets) == 1 and ast.unparse(rets[0].value) == "counter"
+            why = ""
+            if len(top) != 1 or ast.unparse(top[0].iter) != "node_keys" or not isinstance(top[0].target, ast.Name):
+                why = "not one loop over node_keys"
+            else:
+                # the inner structure (which worker cells of a node are summed) as a table of the outer loop body, locals substituted
+                inner = [l for l in top[0].body if isinstance(l, ast.For)]
+                pre = [x for x in top[0].body if not isinstance(x, ast.For)]
+                if len(inner) != 1 or not isinstance(inner[0].target, ast.Name):
+                    why = "not one inner loop over the worker keys"
+                else:
+                    ren = {top[0].target.id: "NK", inner[0].target.id: "WK", w_: "WORKER"}
+                    got = semtab.split_gets(semtab.block_table(pre + inner[0].body, ("counter",), ren))
+                    it = semtab.block_table(pre + [ast.fix_missing_locations(ast.Assign(targets=[ast.Name(id="_IT", ctx=ast.Store())], value=inner[0].iter, lineno=1))], ("_IT",), ren)
+                    want = semtab.split_gets(semtab.reference_table("counter += self._registry.get(NK, {}).get(WK, 0)", ("counter",)))
+                    want_it = semtab.reference_table("_IT = [WORKER.id] if WORKER else self._registry.get(NK, {}).keys()", ("_IT",))
+                    why = semtab.mismatch(got, want) or semtab.mismatch(it, want_it) or ""
+            ok = ok and not why and defs.get("counter") == ["0"] and len(rets) == 1 and ast.unparse(rets[0].value) == "counter"
             what = "get_counters(node, worker) = sum of the addressed cells (missing cells count 0)"
         no_exit = not any(isinstance(x, (ast.Break, ast.Continue)) for x in ast.walk(f.node))
         ctx.record(rule + "r", "SIBLING", fr, what + "; same keys as the writer: node.bridged_form, worker.id", ok and no_exit, {k: defs.get(k) for k in ("node_keys", "worker_keys")},
@@ -207,9 +218,20 @@ def lookup_siblings(ctx: Ctx, rule: str) -> None:
     vc, gc, lc, bc = parts(fc)
     vg, gg, lg, bg = parts(fg)
     ok = len(vc) == len(vg) == 1 and ast.dump(vc[0].value) == ast.dump(vg[0].value) and ast.unparse(vc[0].value) == f"{fc.params()[1]}.split('.')"
-    ok = ok and len(gc) == len(gg) == 1 and ast.dump(gc[0].test) == ast.dump(gg[0].test) and ast.unparse(gc[0].test) == "variants[0] not in self.variant_nodes"
-    ok = ok and ast.unparse(gc[0].body[0]) == "return False" and ast.unparse(gg[0].body[0]) == "return []"
-    ok = ok and len(lc) == len(lg) == 1 and ast.dump(lc[0].iter) == ast.dump(lg[0].iter) and ast.dump(lc[0].target) == ast.dump(lg[0].target)
+    def start_set(guards, loops, empty):
+        """Both spellings of 'the trie nodes of the first variant, none if it is unknown'."""
+        if len(loops) != 1:
+            return None
+        it = ast.unparse(loops[0].iter)
+        if len(guards) == 1 and ast.unparse(guards[0].test) == "variants[0] not in self.variant_nodes" and not guards[0].orelse \
+                and [ast.unparse(x) for x in guards[0].body] == [f"return {empty}"] and it == "self.variant_nodes[variants[0]]":
+            return "variant_nodes[variants[0]] or nothing"
+        if not guards and it == "self.variant_nodes.get(variants[0], [])":
+            return "variant_nodes[variants[0]] or nothing"
+        return None
+
+    ok = ok and start_set(gc, lc, "False") is not None and start_set(gc, lc, "False") == start_set(gg, lg, "[]")
+    ok = ok and len(lc) == len(lg) == 1 and ast.dump(lc[0].target) == ast.dump(lg[0].target)
     detail = {}
     if ok:
         ic = [l for l in lc[0].body if isinstance(l, ast.For)]
